@@ -6,7 +6,7 @@ NOT_APPLICABLE = {}
 
 add("C18", "exhaustive state enumeration + proptest over seeds/lengths/intervals; range and permutation oracles",
     "Thorough tier enumerates all 2^31-2 generator states for generate() on 12 intervals (incl. degenerate ones and widths beyond f32::MAX) and for the shuffle index on 7 lengths (exhaustive for those), "
-    "quick enumerates both ends of the state space plus a seed-offset progression; seeds up to u64::MAX, interval classes, shuffle lengths/duplicates (rarely > 2^24 elements) and Tensor::random shapes (incl. zero-sized dimensions) are sampled with proptest. "
+    "quick enumerates both ends of the state space plus a seed-offset progression; seeds up to u64::MAX, interval classes, shuffle lengths/duplicates (rarely > 2^24 elements) and Tensor::random shapes (incl. zero-sized dimensions) are sampled with proptest, as are generator objects that serve two intervals in a row and Tensor::random calls after a refused request. "
     "Exploration level: no claim beyond the enumerated/sampled domain.",
     "Trusts the harness's modular-inverse computation of the seed that leads to a given state; Tensor::random is clock-seeded so only seed-independent assertions are made.",
     "DESIGN.md 4/C18")
@@ -27,16 +27,16 @@ add("C07", "exhaustive enumeration of all 2^32 single-precision bit patterns (th
     "Tolerances: 4 ulp (forward) / 8 ulp (backward) of the f64 definition plus an absolute term (f32 min-normal where exp/cosh overflow flushes to 0, 1.8e-7 for sigmoid' cancellation); ReLU-family derivative at +-0 may be either one-sided value.",
     "DESIGN.md 4/C07")
 add("C14", "proptest over shapes/targets/contents against an explicit row-major index model; round-trip and refusal oracles",
-    "1 000 000 (thorough 100 000 000) generated (operation, source shape, target shape, contents) cases incl. size-1 axes, non-square shapes, unequal counts, reshape chains via vectors, one case in 40 with >= 16384 elements; element [c][h][w] compared bitwise with position c*H*W+h*W+w, recorded shape vs nested lengths, there-and-back identity, unequal counts must panic. Run twice: harness with debug assertions + overflow checks, and (different seed) a build without them.",
+    "1 000 000 (thorough 100 000 000) generated (operation, source shape, target shape, contents) cases incl. size-1 axes, non-square shapes, unequal counts, reshape chains via vectors, one case in 40 with >= 16384 elements, contents incl. signed zeros, subnormals and infinities; element [c][h][w] compared bitwise with position c*H*W+h*W+w, recorded shape vs nested lengths, there-and-back identity, unequal counts must panic. Run twice: harness with debug assertions + overflow checks, and (different seed) a build without them.",
     "vector->vector reshape of another length is not required to be refused (the statement names vector<->3-D and 3-D<->3-D).",
     "DESIGN.md 4/C14")
 add("C15", "proptest over operation x rank x shape x content classes against a scalar IEEE reference; shape-mismatch refusal oracle",
-    "2 000 000 (thorough 200 000 000) generated cases over 12 operations, ranks 1-4 and nested lists, signed zeros / subnormals / mixed magnitudes, axes up to 300, scalars one ulp from 0 / +-1 / powers of two; add/sub/mul/div/outer/transpose/clamp bitwise, Hadamard within 2 ulp of the exact product, mean and dot within a summation bound; mismatched operands must panic. Run twice: harness with debug assertions + overflow checks, and (different seed) a build without them.",
+    "2 000 000 (thorough 200 000 000) generated cases over 12 operations, ranks 1-4 and nested lists, signed zeros / subnormals / mixed magnitudes, axes up to 300, matrices with both extents in 17..70, scalars one ulp from 0 / +-1 / powers of two; add/sub/mul/div/outer/transpose/clamp bitwise, Hadamard within 2 ulp of the exact product, mean and dot within a summation bound; mismatched operands must panic. Run twice: harness with debug assertions + overflow checks, and (different seed) a build without them.",
     "dot() and product() are not required to refuse mismatched operands (the statement lists refusal for the in-place element-wise operations).",
     "DESIGN.md 4/C15")
 
 add("C01", "proptest over generated architectures; oracle = numerical differentiation of an independent f64 reference network (P1) or of the library's own forward pass with Richardson extrapolation (P2); per-layer public backward() in isolation; one-step learn() differential",
-    "60 000 (thorough 3 000 000) generated networks per run: depth 1-4 (6), all layer kinds incl. feedback blocks without skips in any fitting order, full kernel/stride/padding/dilation lattice, 7 objectives, soft-max+CE heads, exactly-zero tensors, dense widths up to 70, networks that were trained first, frozen output gradients down to 1e-12; every parameter gradient (sampled above 300) and the input gradient of isolated layers compared with central differences; one SGD learn() step must equal -lr * gradient. Sampling within sizes <= 9x9x3.",
+    "60 000 (thorough 3 000 000) generated networks per run: depth 1-4 (6), all layer kinds incl. feedback blocks without skips in any fitting order, full kernel/stride/padding/dilation lattice, 7 objectives, soft-max+CE heads, exactly-zero tensors, dense widths up to 70, networks that were trained first, frozen output gradients down to 1e-12, single layers on 13-24 pixel maps and with saturated units (judged by component-wise error bounds); every parameter gradient (sampled above 300) and the input gradient of isolated layers compared with central differences; one SGD learn() step must equal -lr * gradient. Sampling within sizes <= 9x9x3.",
     "P1 trusts the harness's f64 reference operators (cross-checked against the library's forward pass at three parameter points per case, otherwise P2 is used); cases within 2e-3 of a ReLU kink / pooling tie are discarded and counted.",
     "DESIGN.md 4/C01")
 add("C02", "proptest over the single-layer configuration lattice and layer sequences; oracle = f64 defining operators with a rounding-error bound, flat-vs-spatial metamorphic relation, fold of the library's own layer forwards",
@@ -44,15 +44,15 @@ add("C02", "proptest over the single-layer configuration lattice and layer seque
     "Sequence outputs are compared with the f64 reference network at 2e-4 of the output scale and skipped when a kink/tie is within 1e-4.",
     "DESIGN.md 4/C02")
 add("C04", "proptest over (network, optimizer, objective, N, B, E, data); oracle = replayed reference trainer built from public pieces",
-    "40 000 (thorough 2 000 000) training runs incl. B = 1, B not dividing N, B > N, groups of 65-140 samples, 1-4 epochs, one or two learn() calls, all five optimizers, all seven objectives; learn()'s final weights and loss vector must equal ordered mini-batch gradient-sum descent replayed by the harness (bit-identical today, accepted within 1e-4 rel); a group step of plain SGD through a feedback block equals the sum of the single-sample steps; validation data never changes the weights.",
+    "40 000 (thorough 2 000 000) training runs incl. B = 1, B not dividing N, B > N, groups of 65-140 samples, 1-4 epochs, one or two learn() calls, all five optimizers, all seven objectives; learn()'s final weights and loss vector must equal ordered mini-batch gradient-sum descent replayed by the harness (bit-identical today, accepted within 1e-4 rel); a group step of plain SGD through a feedback block equals the sum of the single-sample steps; validation data never changes the weights; the replay also runs through feedback blocks (per-copy optimizer state, mean re-coupling) and through runs that never call set_optimizer (documented standard optimizer).",
     "The replay shares the per-sample gradient with the library on purpose (C01 owns it); feedback blocks and dropout are excluded here (C10 / C09).",
     "DESIGN.md 4/C04")
 add("C05", "metamorphic schedule exploration: dedicated rayon pools with 1..48 threads x injected delay plans x repetitions, fresh network per run; bitwise comparison with the 1-thread run",
-    "100 (thorough 2 000) generated networks with every layer kind, dropout, feedback blocks with skips, skip connections with shared sources, x 6 (11) schedules each (one case in five evaluates 1e-39-scaled inputs on a bias-free network so that a floating-point mode left on worker threads shows); training with validation, validate() and predict_batch() over > 64 inputs must be bit-identical to the 1-thread run of a freshly built identical network. Explores schedule classes, not interleavings.",
+    "100 (thorough 2 000) generated networks with every layer kind, dropout, feedback blocks with skips, skip connections with shared sources, x 6 (11) schedules each (one case in five evaluates 1e-39-scaled inputs on a bias-free network so that a floating-point mode left on worker threads shows); training with validation, validate() and predict_batch() over > 64 inputs must be bit-identical to the 1-thread run of a freshly built identical network. Every third schedule lets the pool serve a decoy network first; one case in six puts a NaN into one evaluation input. Explores schedule classes, not interleavings.",
     "rayon's scheduler is not owned: thread counts, repetitions and delays at the per-sample hooks are varied; decides the realistic mechanisms (order-dependent float reduction, unordered collection, per-instance hash order), cannot exclude a dependence needing one particular interleaving.",
     "DESIGN.md 4/C05")
 add("C08", "proptest over raw layer-request sequences next to an independent shape model; Display-text announcement parsing; identity-network round trip across flat<->spatial transitions",
-    "500 000 (thorough 40 000 000) request sequences (valid and invalid, dense widths incl. non-squares, paddings up to kernel+1, 1-pixel inputs): model-valid requests must be accepted and announced as the standard formulas say, non-square flat widths must be rejected in front of spatial layers, forward produces the announced shapes, gradient shapes equal parameter shapes; identity networks reproduce the row-major sequence bitwise.",
+    "500 000 (thorough 40 000 000) request sequences (valid and invalid, one request in five a feedback block built to fit, dense widths incl. non-squares, paddings up to kernel+1, 1-pixel inputs): model-valid requests must be accepted and announced as the standard formulas say, non-square flat widths must be rejected in front of spatial layers, forward produces the announced shapes, gradient shapes equal parameter shapes; identity networks (spatial inputs also given flat) reproduce the row-major sequence bitwise.",
     "Requests whose effective kernel does not fit are outside the property and are not submitted.",
     "DESIGN.md 4/C08")
 add("C09", "differential testing against a dropout-free twin network over generated architectures, dropout patterns and epoch counts",
@@ -64,22 +64,22 @@ add("C10", "stateful history generation: block creation + optimizer + 1-4 learn(
     "Blocks with internal skips are generated in 1/4 of the cases; when their backward pass aborts on a shape assertion (a library limitation outside the listed properties) the case is discarded and counted.",
     "DESIGN.md 4/C10")
 add("C11", "proptest over block specifications; oracle = statement-derived model composed from the library's own single-layer forwards, accumulations computed element-wise by the harness",
-    "400 000 (thorough 30 000 000) blocks: flat and spatial, loops 1-4, four skip-flag combinations, five accumulations (set at creation or later through set_accumulation), with and without a following dense layer; predict within 2 ulp (bit-identical today) of the repeated, skip-combined sequence.",
+    "400 000 (thorough 30 000 000) blocks: flat and spatial, loops 1-4, four skip-flag combinations, five accumulations (set at creation or later through set_accumulation), with and without a following dense layer; widths up to 2100 and blocks containing a max-pool occur; predict within 2 ulp (bit-identical today) of the repeated, skip-combined sequence.",
     "The model trusts the single-layer forwards (C02).",
     "DESIGN.md 4/C11")
 add("C12", "proptest over (network, objective, tolerance, N) with targets derived from the predictions; oracle recomputed from public pieces with interval semantics at the tolerance edge",
-    "20 000 (thorough 1 000 000) cases with N in {1, 2, 63, 64, 65, 127, 128, 129, 200} or random <= 300, optional skip connections, output activation optionally changed with set_activation: validate loss = mean objective of predict within the summation bound, accuracy inside the interval allowed by the stated rule, predict_batch[i] == predict(x_i) bitwise and in order, predict == last activation of forward; run inside 3-thread rayon pools.",
+    "20 000 (thorough 1 000 000) cases with N in {1, 2, 63, 64, 65, 127, 128, 129, 200} or random <= 300, optional skip connections, output activation optionally changed with set_activation: validate loss = mean objective of predict within the summation bound, accuracy inside the interval allowed by the stated rule, predict_batch[i] == predict(x_i) bitwise and in order, predict == last activation of forward; soft target distributions, fine input sweeps, up to 130 outputs, and a second validate call with fewer samples on the same network; run inside 3-thread rayon pools.",
     "Components at exactly the tolerance and arg-max ties may count either way.",
     "DESIGN.md 4/C12")
 add("C13", "history-invariant checking over generated exact loss trajectories (dyadic linear model), incl. plateaus with bit-equal losses",
-    "300 000 (thorough 20 000 000) training set-ups producing falling / rising / fall-then-rise / oscillating / plateau trajectories, tolerance 1-6, budget 1-14, with and without validation data, print settings, one-ulp-per-epoch trajectories; history lengths, never-continues-past and stops-only-if conditions, and weight equality with a validation-free run of exactly n epochs.",
+    "300 000 (thorough 20 000 000) training set-ups producing falling / rising / fall-then-rise / oscillating / plateau trajectories, tolerance 1-6, budget 1-14, with and without validation data, print settings, one-ulp-per-epoch trajectories; history lengths, never-continues-past and stops-only-if conditions, and weight equality with a validation-free run of exactly n epochs; one case in six follows an earlier learn() call on the same network object.",
     "The stopping window is read as: the last `tolerance` recorded losses form a strictly increasing sequence.",
     "DESIGN.md 4/C13")
 add("C16", "proptest over networks + connect() call sequences + accumulations; acceptance model, hand-composed forward model, and the C01 derivative oracle with skip connections in the f64 reference network",
-    "200 000 (thorough 10 000 000) cases incl. a = b, a = 0, repeated targets, shared sources, chains and flat<->spatial crossings; earlier connections must survive, distinct pairs must be accepted, predict must equal the composed model (<= 2 ulp), and with additive accumulation every parameter gradient must equal the numerical derivative.",
+    "200 000 (thorough 10 000 000) cases incl. a = b, a = 0, repeated targets, shared sources, chains and flat<->spatial crossings; earlier connections must survive, distinct pairs must be accepted, predict must equal the composed model (<= 2 ulp), and with additive accumulation every parameter gradient must equal the numerical derivative (also for connections added after training); calls with swapped indices may be refused but must not remove an earlier connection.",
     "When a source is itself a target both readings of 'the input fed to layer a' are accepted in the forward model; max-pool sources are refused by the library and not generated.",
     "DESIGN.md 4/C16")
 add("C17", "proptest over loop configurations; oracle = statement-derived model from the library's own layer forwards; metamorphic twin (range repeated k+1 times) for overwrite",
-    "400 000 (thorough 30 000 000) networks with a looped range (dense, spatial, conv+pool, deconv+pool), prefix / suffix layers incl. a flattening dense layer, k 1-3 (rarely up to 24), five accumulations (loop and skip accumulations drawn independently), input skips on/off; prediction within 2 ulp (bit-identical today) of the accumulated repeated sub-network, and equal to the unrolled twin for overwrite.",
+    "400 000 (thorough 30 000 000) networks with a looped range (dense, spatial, conv+pool, deconv+pool), prefix / suffix layers incl. a flattening dense layer, k 1-3 (rarely up to 24), five accumulations (loop and skip accumulations drawn independently), input skips on/off; prediction within 2 ulp (bit-identical today) of the accumulated repeated sub-network, and equal to the unrolled twin for overwrite; two disjoint loops, ranges starting at a max-pool, and (predict == forward only) overlapping / nested loops occur.",
     "One loop connection per network; loops over feedback blocks are refused by the library and not generated.",
     "DESIGN.md 4/C17")
